@@ -46,4 +46,4 @@ Definition ops_of (s : state) : list op :=
 Definition reachable (clock : nat -> N) (s : state) : Prop :=
   exists ls, Forall label_ok ls /\ s = run clock ls init.
 
-Definition is_clean (l : label) : bool := match l with LCleanAll => true | _ => false end.
+Definition is_clean (l : label) : bool := match l with LCleanAll | LCleanIndex | LCleanDir _ => true | _ => false end.
